@@ -353,7 +353,12 @@ def run_check(prop, tier, seed):
     plan = plans.PLANS[prop]
     try:
         if plan["engine"] == plans.INO:
-            return run_ino(prop, tier, seed, plan)
+            rc = run_ino(prop, tier, seed, plan)
+            if rc != 2 and plan.get("also_lin"):
+                import engine_lin
+                rc2 = engine_lin.run(prop, tier, seed, plan, merge=True)
+                rc = 2 if rc2 == 2 else max(rc, rc2)
+            return rc
         mod = __import__("engine_" + plan["engine"])
         return mod.run(prop, tier, seed, plan)
     except Infra as e:
@@ -371,6 +376,9 @@ def replay(prop, path):
         log("INFRA-ERROR: no scenario.json in", path)
         return 2
     try:
+        if plan["engine"] == plans.INO and os.path.exists(os.path.join(path, "history.ndjson")):
+            import engine_lin
+            return engine_lin.replay(prop, path, plan)
         if plan["engine"] == plans.INO:
             tmp = scratch()
             try:
